@@ -42,8 +42,16 @@ AllowedLiteral(o) ==
     LET ds == SelectSeq(o.digits, LAMBDA ch : ch # 95) IN
     IF FitsI64(ds) THEN o.accepted /\ o.printed = StripZeros(ds) ELSE ~o.accepted
 
+\* three operands: the written grouping is evaluated; an intermediate result that does not fit stops the
+\* evaluation even when the final value would fit
+AllowedNested(o) ==
+    LET inner == IF o.right THEN Exact(o.op2, o.b, o.c) ELSE Exact(o.op1, o.a, o.b)
+        outer == IF o.right THEN Exact(o.op1, o.a, inner) ELSE Exact(o.op2, inner, o.c) IN
+    IF InI64(inner) /\ InI64(outer) THEN o.res = "value" /\ o.r = outer ELSE o.res = "overflow"
+
 Allowed(o) ==
     CASE o.kind = "arith" -> AllowedArith(o)
+      [] o.kind = "nested" -> AllowedNested(o)
       [] o.kind = "divmod" -> AllowedDivMod(o)
       [] o.kind = "cmp" -> AllowedCmp(o)
       [] o.kind = "range" -> AllowedRange(o)
